@@ -35,7 +35,8 @@ def one_case(V, E, X):
     # the two collections may be given in any iterable form, one-shot iterators included (the constructor reads each once)
     forms = []
     for nm, mkV, mkE in (('tuples', tuple, tuple), ('iterators', iter, iter), ('generator of lists', list, lambda e: (list(x) for x in e)),
-                         ('zip', list, lambda e: zip([a for a, _ in e], [b for _, b in e])), ('sets', set, set)):
+                         ('zip', list, lambda e: zip([a for a, _ in e], [b for _, b in e])), ('sets', set, set),
+                         ('lists with repeated nodes and edges', lambda v: list(v) + list(v)[:2], lambda e: list(e) + list(e)[:2])):
         r0 = call(lambda: DiGraph(V=mkV(list(V)), E=mkE(list(E))))
         if r0[0] != 'ok' or gset(r0[1]) != obs['ctor'][1]:
             forms.append('%s: %s' % (nm, r0[1] if r0[0] != 'ok' else gset(r0[1])))
